@@ -22,10 +22,6 @@
         ∀ mode sub outs, Conforms (catch_ mode sub outs) outs (catchAttempts outs) (termAfter outs (catchAttempts outs))
       `catch_conforms_partial` excludes exactly `Known.catchFallback`; `catch_rest` proves the count,
       the values and the terminal for every input.
-    * `Concat` keeps subscribing the remaining sources after one has failed. Full statement:
-        ∀ n sub outs, Conforms (concat n sub outs) outs (concatAttempts n outs) (termAfter outs (concatAttempts n outs))
-      `concat_conforms_partial` excludes exactly `Known.concatErrorBeforeLast`; `concat_rest` proves the
-      sequential log, the values and the terminal for every input.
     * the `Wait` window (kernel, `subscription.go:104-150` vs `167-177`): `Wait()` returns as soon as the
       subscription's `done` flag is set, also while the finalizers are still running on another
       goroutine. In the schedule where an attempt's terminal arrives after its teardown was registered
@@ -34,10 +30,11 @@
       `wait_window_witness`; driven on the real code by `mode=tdrace`). The `Conforms` theorems describe
       all other schedules (terminal before `Subscribe` returns — synchronous attempts — or after the
       operator has entered `Wait`), where the model's log is the one the code produces.
+  Repaired since the first version of this file: `Concat` kept subscribing the remaining sources
+  after one had failed (fix 808ed47) — `concat_conforms` is now the full statement.
   Noted, not part of C15: Retry/While/DoWhile/OnErrorResumeNextWith/Concat do not look at the
   destination, so the attempt counts above do not depend on `cut` (downstream gone: C14);
-  RepeatWith registers nothing for teardown (C14); OnErrorResumeNextWith rewrites its captured
-  slice at every application (C12).
+  RepeatWith registers nothing for teardown (C14).
 -/
 import RoProofs.Resub
 import RoProofs.ResubRetry
@@ -201,45 +198,15 @@ theorem onErrorResumeNext_conforms (k : Nat) (sub : Ctx) (outs : List Outcome) :
 
 /-! ### Concat -/
 
-/-- for every input: sequential log, the values up to and including the first failing source, its
-    error or completion -/
-theorem concat_rest (n : Nat) (sub : Ctx) (outs : List Outcome) :
-    (concat n sub outs).log = seqLog 1 (concat n sub outs).attempts ∧
-    outVals (concat n sub outs).raw = valuesOf (outs.take (concatAttempts n outs)) ∧
-    outTerm (concat n sub outs).raw = some (termAfter outs (concatAttempts n outs)) :=
-  ⟨concatLoop_log sub n outs 0, concatLoop_vals sub n outs 0, concatLoop_term sub n outs 0⟩
-
-/-- what the pinned code does: all `n` sources are subscribed -/
-theorem concat_attempts_actual (n : Nat) (sub : Ctx) (outs : List Outcome) : (concat n sub outs).attempts = n :=
-  concatLoop_attempts sub n outs 0
-
-theorem concat_conforms_partial (n : Nat) (sub : Ctx) (outs : List Outcome) (h : Known.concatErrorBeforeLast n outs = false) :
+/-- every number of sources, every outcome list: one source after the other until one fails
+    (full statement since fix 808ed47; before it the remaining sources were still subscribed) -/
+theorem concat_conforms (n : Nat) (sub : Ctx) (outs : List Outcome) :
     Conforms (concat n sub outs) outs (concatAttempts n outs) (termAfter outs (concatAttempts n outs)) := by
-  have hn : concatAttempts n outs = n := firstStop_eq_bound _ _ (concat_noErrorBeforeLast h)
-  have ha : (concat n sub outs).attempts = concatAttempts n outs := by rw [hn]; exact concat_attempts_actual n sub outs
-  obtain ⟨h1, h2, h3⟩ := concat_rest n sub outs
-  exact ⟨by rw [h1, ha], ha, h2, h3⟩
-
-/-- the deviation, for every input of the excluded class: more attempts than the definition allows -/
-theorem concat_deviation (n : Nat) (sub : Ctx) (outs : List Outcome) (h : Known.concatErrorBeforeLast n outs = true) :
-    concatAttempts n outs < (concat n sub outs).attempts := by
-  rw [concat_attempts_actual]
-  unfold Known.concatErrorBeforeLast at h
-  rw [List.any_eq_true] at h
-  obtain ⟨j, hj, hf⟩ := h
-  have hj' : j < n - 1 := by simpa using hj
-  by_cases hlt : concatAttempts n outs < n
-  · exact hlt
-  · exfalso
-    have hle := firstStop_le (failsAt outs) n
-    have heq : firstStop (failsAt outs) n = n := by unfold concatAttempts at hlt; omega
-    have := firstStop_before (failsAt outs) n j (by omega)
-    rw [this] at hf; simp at hf
-
-/-- witness: the first of two sources fails, the second is subscribed all the same -/
-theorem concat_witness :
-    (concat 2 {} [⟨[(1, 11)], 2, .error 1⟩, ⟨[(1, 21)], 2, .complete⟩]).attempts = 2 ∧
-    concatAttempts 2 [⟨[(1, 11)], 2, .error 1⟩, ⟨[(1, 21)], 2, .complete⟩] = 1 := by decide
+  have ha : (concat n sub outs).attempts = concatAttempts n outs := concatLoop_attempts sub n outs 0
+  refine ⟨?_, ha, ?_, ?_⟩ <;> rw [← ha]
+  · exact concatLoop_log sub n outs 0
+  · exact concatLoop_vals sub n outs 0
+  · exact concatLoop_term sub n outs 0
 
 /-! ### Catch -/
 
@@ -318,7 +285,8 @@ example : (doWhile 0 {} [true, false] [ok1 11, ok1 21, ok1 31]).attempts = 2 := 
 example : (repeatWith 3 {} none [ok1 11, fail0 2, ok1 31]).attempts = 2 := by decide
 example : (repeatWith 3 {} (some 1) [ok1 11, ok1 21, ok1 31]).attempts = 1 := by decide
 example : (onErrorResumeNext 2 {} [fail1 1 11, ok1 21, fail0 3]).attempts = 3 := by decide
-example : Known.concatErrorBeforeLast 2 [ok1 11, fail0 2] = false ∧ Known.concatErrorBeforeLast 2 [fail0 1, ok1 21] = true := by decide
+example : (concat 3 {} [ok1 11, fail0 2, ok1 31]).attempts = 2 := by decide
+example : (concat 3 {} [ok1 11, fail0 2, ok1 31]).log = [.s 1, .t 1, .s 2, .t 2] := by decide
 example : Known.catchFallback [ok1 11] = false ∧ Known.catchFallback [fail0 1, ok1 21] = true := by decide
 
 end Ro.C15
@@ -339,11 +307,7 @@ end Ro.C15
 #print axioms Ro.C15.repeatWith_conforms
 #print axioms Ro.C15.repeatWith_attempts_nocut
 #print axioms Ro.C15.onErrorResumeNext_conforms
-#print axioms Ro.C15.concat_rest
-#print axioms Ro.C15.concat_attempts_actual
-#print axioms Ro.C15.concat_conforms_partial
-#print axioms Ro.C15.concat_deviation
-#print axioms Ro.C15.concat_witness
+#print axioms Ro.C15.concat_conforms
 #print axioms Ro.C15.catch_rest
 #print axioms Ro.C15.catch_conforms_partial
 #print axioms Ro.C15.catch_deviation
